@@ -7,10 +7,13 @@ from vlib.gens import hx, nat_pattern, PATTERNS, signed
 GROUP = "ratio"
 LEAN_PROPS = "Dashu.Props.C04"
 LEAN_AUDIT = "Dashu.Audit.C04"
+# compositions with other groups' proved files, kept apart from the property's own theorems
+GEN_PROPS = ["Dashu.Props.C04Link"]
+GEN_AUDIT = ["Dashu.Audit.C04Link"]
 JOBS = 12
 
 REFINED = ["Repr::reduce", "Repr::reduce_with_hint", "Repr::reduce2",
-           "RBig::from_parts / from_parts_signed", "Relaxed::from_parts / from_parts_signed",
+           "RBig::from_parts / from_parts_signed / from_parts_const (const Euclid loop)", "Relaxed::from_parts / from_parts_signed / from_parts_const",
            "impl_add_or_sub_with_rbig (g = 1 shortcut and gcd-hint branch)", "impl_addsub_with_relaxed",
            "impl_addsub_int_with_rbig / impl_int_sub_rbig (+ Relaxed)", "impl_mul_with_rbig (cross gcd)",
            "impl_mul_with_relaxed", "impl_mul_int_with_rbig (+ Relaxed)", "impl_div_with_rbig / _relaxed",
@@ -18,9 +21,9 @@ REFINED = ["Repr::reduce", "Repr::reduce_with_hint", "Repr::reduce2",
            "impl_euclid_div / impl_euclid_rem_* / impl_euclid_divrem_*", "Repr::sqr / cubic / pow",
            "Repr::neg / abs / signum / Mul<Sign>", "Inverse for Repr", "Repr::fract / split_at_point / trunc / floor / ceil / round",
            "RBig::relax / Relaxed::canonicalize", "register programs (run): every register ever produced"]
-FRONTIER = ["dashu-int kernels used by the rational layer are taken at their contracts: Gcd::gcd (= Nat.gcd, panics on (0,0)), "
+FRONTIER = ["dashu-int kernels used by the rational layer are taken at their contracts (gcd: the contract is proved equal to the mirrored integer gcd of C12 for every word size — Props/C04Link gcd_contract_is_proved_kernel): Gcd::gcd (= Nat.gcd, panics on (0,0)), "
             "IBig/UBig *, +, -, / (truncated), %, div_euclid/rem_euclid, trailing_zeros, >>, pow (properties C01, C02, C09, C12)",
-            "RBig::from_parts_const / Relaxed::from_parts_const: mirrored and run in the correspondence, no theorem yet"]
+]
 RULE = ("operands n/d built from size classes {tiny, 1 word, 2 words (inline boundary), 3-6 words, 10-40 words} x bit patterns "
         "x signs, then related to each other the way the code branches: denominators coprime (g = 1 shortcut) or sharing a "
         "factor g (hint branch) with the numerator sum cancelling part / all / none of g, cross factors gcd(a,d), gcd(b,c) "
